@@ -20,6 +20,7 @@ CONSTANTS CtxIds,      \* context identifiers
           Packets,     \* input alphabet: a set of byte strings
           EidVals,     \* values stored through the accessors
           UuidVals,    \* UUIDs installed with set_uuid
+          Ops,         \* which kinds of call the instance explores: subset of {"process","decode","get_length","enc","set"}
           O            \* open deviations ({} = ideal)
 
 VARIABLES ctx, hist, out
@@ -73,10 +74,12 @@ SetUuid(c, u) == /\ ctx' = [ctx EXCEPT ![c].uuid = u] /\ hist' = [hist EXCEPT ![
                  /\ out' = [NoOut EXCEPT !.op = "set_uuid", !.c = c, !.arg = u]
 
 Next == \E c \in CtxIds :
-          \/ \E p \in Packets : Process(c, p) \/ Decode(c, p) \/ GetLength(c, p)
-          \/ \E n \in {"set_endpoint_id", "get_endpoint_id"} : EncodeResp(c, n)
-          \/ \E e \in EidVals : SetEidReq(c, e) \/ SetEidResp(c, e)
-          \/ \E u \in UuidVals : SetUuid(c, u)
+          \/ "process" \in Ops /\ \E p \in Packets : Process(c, p)
+          \/ "decode" \in Ops /\ \E p \in Packets : Decode(c, p)
+          \/ "get_length" \in Ops /\ \E p \in Packets : GetLength(c, p)
+          \/ "enc" \in Ops /\ \E n \in {"set_endpoint_id", "get_endpoint_id"} : EncodeResp(c, n)
+          \/ "set" \in Ops /\ ( \/ \E e \in EidVals : SetEidReq(c, e) \/ SetEidResp(c, e)
+                                 \/ \E u \in UuidVals : SetUuid(c, u) )
 
 Spec == Init /\ [][Next]_vars
 
